@@ -194,7 +194,7 @@ func (p *Program) staticFrameComplete(cfg *PropConfig, ld LoadSpec) []*Obligatio
 				continue
 			}
 			n++
-			if !allowed[w.Func] {
+			if !allowed[w.Func] && !p.privateHelperOf(w.Func, allowed, map[string]bool{}) {
 				bad = append(bad, fmt.Sprintf("%s (%s at %s)", w.Func, w.Op, w.Pos))
 			}
 		}
@@ -880,4 +880,50 @@ func calleeName(c *ssa.CallCommon) string {
 		return c.Method.Name()
 	}
 	return c.Value.Name()
+}
+
+// privateHelperOf: fn is an unexported function that is only ever called (statically, never taken as a value) from
+// the allowed writers or from other such helpers: its writes are part of what those functions are verified for
+// (uncontracted callees are inlined into the proofs of their callers), so it adds no new code path to the family.
+func (p *Program) privateHelperOf(key string, allowed map[string]bool, seen map[string]bool) bool {
+	if seen[key] {
+		return true
+	}
+	seen[key] = true
+	fn := p.funcsByKey[key]
+	if fn == nil || fn.Object() == nil || fn.Object().Exported() {
+		return false
+	}
+	if p.contractFor(fn) != nil {
+		return false // a function under its own contract must be listed explicitly
+	}
+	callers := 0
+	for _, ck := range sortedKeys(p.funcsByKey) {
+		cf := p.funcsByKey[ck]
+		if cf.Blocks == nil {
+			continue
+		}
+		for _, b := range cf.Blocks {
+			for _, ins := range b.Instrs {
+				// taken as a value anywhere: could be called from anywhere
+				for _, op := range ins.Operands(nil) {
+					if op != nil && *op == ssa.Value(fn) {
+						ci, isCall := ins.(ssa.CallInstruction)
+						if !isCall || ci.Common().Value != ssa.Value(fn) {
+							return false
+						}
+					}
+				}
+				ci, ok := ins.(ssa.CallInstruction)
+				if !ok || ci.Common().StaticCallee() != fn {
+					continue
+				}
+				callers++
+				if !allowed[ck] && !p.privateHelperOf(ck, allowed, seen) {
+					return false
+				}
+			}
+		}
+	}
+	return callers > 0
 }
